@@ -132,7 +132,12 @@ func c03T2Scanner(r *core.R, osmTI *c03Struct) {
 			fieldNames = append(fieldNames, f.Name)
 		}
 	}
-	m := c03BuildScanModel(r, fieldNames)
+	// spellings only a dispatch on something else than the element name itself would accept (exact-name dispatch)
+	extra := append([]string{}, fieldNames...)
+	for _, n := range fieldNames {
+		extra = append(extra, c03NameVariants(n)...)
+	}
+	m := c03BuildScanModel(r, extra)
 	if m == nil {
 		return
 	}
@@ -214,7 +219,20 @@ func c03T2Scanner(r *core.R, osmTI *c03Struct) {
 // c03T3 (scanner walks into wrappers) on the observed behaviour.
 func c03T3(r *core.R) {
 	c03Init(r)
-	m := c03BuildScanModel(r, nil)
+	tbl, err := c03LoadTable()
+	if err != nil {
+		r.Anchor("tables/osmxml.json: " + err.Error())
+		return
+	}
+	containers, objects := c03ScanContainers(r.P, tbl)
+	extra := append([]string{}, containers...)
+	for _, n := range containers {
+		extra = append(extra, c03NameVariants(n)...)
+	}
+	for n := range objects {
+		extra = append(extra, c03NameVariants(n)...)
+	}
+	m := c03BuildScanModel(r, extra)
 	if m == nil {
 		return
 	}
@@ -223,12 +241,12 @@ func c03T3(r *core.R) {
 		r.Unknown("loop@"+name, m.fi.Decl.Pos(), "Scan could not be explored completely: %s", m.aborted)
 		return
 	}
-	// (a) a token that is not a start element, and (b) a start element with any other name, take the iteration back
-	// to the head of a loop that reads the next token; nothing is decoded or skipped on the way.
+	// a token that is not a start element takes the iteration back to the head of a loop that reads the next token;
+	// what happens to start elements that are no objects is judged by c03T3Unknown
 	var loopPos token.Pos
-	nonstartBad, defaultBad := "", ""
-	var nonstartPos, defaultPos token.Pos
-	nNon, nDef := 0, 0
+	nonstartBad := ""
+	var nonstartPos token.Pos
+	nNon := 0
 	describe := func(it *c03Iter) string {
 		if it.again == nil {
 			ret, v := it.returned()
@@ -240,13 +258,6 @@ func c03T3(r *core.R) {
 		return ""
 	}
 	for _, l := range append([]string{""}, m.labels...) {
-		// a name for which nothing is ever decoded is "any other name" as far as walking into wrappers goes
-		other := true
-		for _, it := range m.runs[l] {
-			if len(it.decode) > 0 {
-				other = false
-			}
-		}
 		for _, it := range m.runs[l] {
 			if it.assert == nil {
 				continue
@@ -255,26 +266,13 @@ func c03T3(r *core.R) {
 			if tokenLoop {
 				loopPos = it.again.Node.Pos()
 			}
-			switch {
-			case it.ok == triF:
+			if it.ok == triF {
 				nNon++
 				if !tokenLoop && nonstartBad == "" {
 					nonstartBad, nonstartPos = describe(it), c03EvPos(it.assert, m.fi.Decl.Pos())
 					if it.again != nil {
 						nonstartBad = "the iteration continues a loop that does not read the next token"
 					}
-				}
-			case it.ok == triT && (l == "" || other):
-				nDef++
-				switch {
-				case len(it.decode) > 0 && defaultBad == "":
-					defaultBad, defaultPos = "an element of any other name is decoded (`"+src(r.P.Fset, it.decode[0].Call)+"`) instead of being walked into", c03EvPos(it.decode[0], m.fi.Decl.Pos())
-				case !tokenLoop && defaultBad == "":
-					defaultBad, defaultPos = describe(it), c03EvPos(it.assert, m.fi.Decl.Pos())
-					if it.again != nil {
-						defaultBad = "the iteration continues a loop that does not read the next token"
-					}
-					defaultBad = "(name " + c03Quote(l) + ") " + defaultBad
 				}
 			}
 		}
@@ -293,32 +291,7 @@ func c03T3(r *core.R) {
 	default:
 		r.OK("nonstart@"+name, loopPos, "tokens that are not start elements (text, comments, end tags, directives) continue the token loop (%d path(s))", nNon)
 	}
-	switch {
-	case nDef == 0:
-		r.Unknown("default@"+name, m.fi.Decl.Pos(), "no path for a start element of an unlisted name")
-	case defaultBad != "":
-		r.Bad("default@"+name, defaultPos, "for a start element that is no osm object (osm, osmChange, create, modify, delete, action, old, new) %s: elements nested in it are never reached or a nil object is yielded, whole-document decoding reads them", defaultBad)
-	default:
-		r.OK("default@"+name, loopPos, "unknown elements (document roots, change/diff wrappers) continue the token loop without consuming anything, so their children are reached (%d path(s))", nDef)
-	}
-	// no Skip on any path of any name
-	nskip := 0
-	seenSkip := map[token.Pos]bool{}
-	for _, l := range append([]string{""}, m.labels...) {
-		for _, it := range m.runs[l] {
-			for i := range it.path.St.Trace {
-				e := &it.path.St.Trace[i]
-				if c03IsDecoderCall(e, "Skip") && !seenSkip[e.Node.Pos()] {
-					seenSkip[e.Node.Pos()] = true
-					nskip++
-					r.Bad("skip@"+name, e.Node.Pos(), "`%s` (reached for element %s): skipping an element in the scan loop drops every object nested in it (objects inside <create>/<modify>/<delete>/<action> wrappers), whole-document decoding keeps them", src(r.P.Fset, e.Call), c03Quote(l))
-				}
-			}
-		}
-	}
-	if nskip == 0 {
-		r.OKTrivial("skip@"+name, m.fi.Decl.Pos(), "no (*xml.Decoder).Skip call on any explored path of Scan")
-	}
+	c03T3Unknown(r, m, containers, objects, loopPos)
 	// every DecodeElement gets the start element just read, on the decoder the token came from
 	for _, l := range m.labels {
 		var first *c03Event
